@@ -227,7 +227,7 @@ where
         let bound = if eps >= 10.0 { ctx.tier.pick(2, 3) } else { ctx.tier.pick(1, 2) };
         let res = explore(bound, ctx.tier.pick(600, 20000), |prefix| {
             let mut chain = chain_with_eps::<T, B>(target.clone(), start, eps);
-            let (r, rec) = record_with(Script { prefix: prefix.to_vec(), momenta: moms2.clone(), f32_scalar: f32b, inject: true, keep: Some(&["nuts.end", "nuts.leaf"]), max_leaves: 1 << 12 }, || chain.step());
+            let (r, rec) = record_with(Script { prefix: prefix.to_vec(), momenta: moms2.clone(), f32_scalar: f32b, inject: true, keep: Some(&["nuts.end", "nuts.leaf"]), max_leaves: 1 << 12, init_momentum: None }, || chain.step());
             let case = json!({"sampler": "NUTS", "backend": name, "target": tname, "start": start, "eps": jf(eps), "script": prefix});
             ctx.transitions(1);
             match r {
@@ -285,7 +285,7 @@ where
         let case = json!({"sampler": "NUTS-run", "backend": name, "target": tname, "start": starts[si], "seed": seed});
         ctx.evals(1);
         let mut chain = NUTSChain::<T, B, AnyGT<T>>::new(target.clone(), starts[si].iter().map(|x| f(*x)).collect(), f(0.8)).set_seed(seed);
-        let (r, rec) = record_with(Script { prefix: vec![], momenta: vec![], f32_scalar: f32b, inject: false, keep: Some(&["nuts.end"]), max_leaves: 1 << 13 }, || {
+        let (r, rec) = record_with(Script { prefix: vec![], momenta: vec![], f32_scalar: f32b, inject: false, keep: Some(&["nuts.end"]), max_leaves: 1 << 13, init_momentum: None }, || {
             chain.run(6, 4);
         });
         match r {
